@@ -172,22 +172,22 @@ type Record struct {
 	// (C12: preemption pairs), shipped through the hash side file.
 	Counts      map[string]map[string]int `json:"-"`
 	ExtraHashes []uint64                  `json:"-"`
-	Viol     *Violation     `json:"violation,omitempty"`
-	Plan     *Plan          `json:"plan,omitempty"`   // present on violation and when asked for
-	Sample   any            `json:"sample,omitempty"` // rendered case, present when asked for
+	Viol        *Violation                `json:"violation,omitempty"`
+	Plan        *Plan                     `json:"plan,omitempty"`   // present on violation and when asked for
+	Sample      any                       `json:"sample,omitempty"` // rendered case, present when asked for
 }
 
 // Summary is printed by the child once per batch, after the last record.
 type Summary struct {
-	Summary    bool           `json:"summary"`
-	Runs       int            `json:"runs"`
-	Steps      int64          `json:"steps"`
-	Switches   int64          `json:"switches"`
-	SitesHit   []uint32       `json:"sites_hit,omitempty"`
-	SitesTotal int            `json:"sites_total,omitempty"`
-	Faults     map[string]int `json:"faults,omitempty"`
-	Probes     map[string]int `json:"probes,omitempty"`
-	Extra      map[string]any `json:"extra,omitempty"`
+	Summary    bool                      `json:"summary"`
+	Runs       int                       `json:"runs"`
+	Steps      int64                     `json:"steps"`
+	Switches   int64                     `json:"switches"`
+	SitesHit   []uint32                  `json:"sites_hit,omitempty"`
+	SitesTotal int                       `json:"sites_total,omitempty"`
+	Faults     map[string]int            `json:"faults,omitempty"`
+	Probes     map[string]int            `json:"probes,omitempty"`
+	Extra      map[string]any            `json:"extra,omitempty"`
 	Counts     map[string]map[string]int `json:"counts,omitempty"`
 }
 
